@@ -31,7 +31,8 @@ Inductive expr :=
   | EEq (a b : expr)
   | ENot (e : expr)
   | EOr (a b : expr)
-  | EAnd (a b : expr).
+  | EAnd (a b : expr)
+  | EIn (e : expr) (elts : list expr).   (* e in (x, y, ...): e, then every element, then the comparisons *)
 
 Inductive stmt :=
   | SPass
@@ -296,6 +297,18 @@ Fixpoint eval (fuel : nat) (e : expr) (s : state) {struct fuel} : res value :=
       | ROk va s1 => if truthy va then eval f b s1 else ROk va s1
       | r => r
       end
+  | EIn a elts =>
+      match eval f a s with
+      | ROk va s1 =>
+          match evals f elts s1 with
+          | ROk vs s2 => ROk (VBool (existsb (value_eqb va) vs)) s2
+          | RRaise x o s2 => RRaise x o s2
+          | RReturn _ _ => RStuck
+          | RExit s2 => RExit s2
+          | RStuck => RStuck
+          end
+      | r => r
+      end
   end end
 
 with evals (fuel : nat) (l : list expr) (s : state) {struct fuel} : res (list value) :=
@@ -456,8 +469,11 @@ Definition sec_opts : list opts :=
 Definition all_xcls : list xcls := [XOS; XKey; XRuntime].
 
 (* os.fork returns 0: we follow the child (the parent only logs and exits) *)
-Definition child_results : list (str * value) := [(lit "os.fork", VInt 0)].
-Definition parent_results : list (str * value) := [(lit "os.fork", VInt 4242)].
+(* what the id queries return when the process is started as plain root *)
+Definition root_id_results : list (str * value) :=
+  map (fun n => (lit n, VInt 0)) ["os.getuid"; "os.geteuid"; "os.getgid"; "os.getegid"]%string.
+Definition child_results : list (str * value) := (lit "os.fork", VInt 0) :: root_id_results.
+Definition parent_results : list (str * value) := (lit "os.fork", VInt 4242) :: root_id_results.
 
 Definition run_initialize (P : program) (o : opts) (fail : option (nat * xcls)) : outcome :=
   run P (World fail child_results) (mkcfg o) (lit "initialize") [VStr (lit "pygopherd.conf")].
@@ -560,3 +576,80 @@ Definition calls_of (tr : list effect) : list effect :=
    of the configured name *)
 Definition UIDV : str := lit "pwd.getpwnam(alice)[2]".
 Definition GIDV : str := lit "grp.getgrnam(staff)[2]".
+
+(* ---------------- the credentials of the process ---------------- *)
+(* ids are symbolic: "0" is root, UIDV / GIDV the configured account.  The three
+   start states: started as root; started through a set-uid-root launcher (real
+   ids already those of the account, effective and saved ids 0, root's groups);
+   started already as the account. *)
+Record cred := Cred { c_ruid : str; c_euid : str; c_suid : str; c_rgid : str; c_egid : str; c_sgid : str; c_groups : str }.
+Inductive start := StartRoot | StartLauncher | StartDropped.
+Definition all_starts : list start := [StartRoot; StartLauncher; StartDropped].
+Definition ZERO : str := lit "0".
+Definition ROOTGROUPS : str := lit "(0)".
+Definition NOGROUPS : str := lit "()".
+Definition start_cred (st : start) : cred :=
+  match st with
+  | StartRoot => Cred ZERO ZERO ZERO ZERO ZERO ZERO ROOTGROUPS
+  | StartLauncher => Cred UIDV ZERO ZERO GIDV ZERO ZERO ROOTGROUPS
+  | StartDropped => Cred UIDV UIDV UIDV GIDV GIDV GIDV NOGROUPS
+  end.
+Definition id_value (s : str) : value := if str_eqb s ZERO then VInt 0 else VSym s.
+Definition start_results (st : start) : list (str * value) :=
+  let c := start_cred st in
+  [ (lit "os.getuid", id_value (c_ruid c)); (lit "os.geteuid", id_value (c_euid c));
+    (lit "os.getgid", id_value (c_rgid c)); (lit "os.getegid", id_value (c_egid c)) ].
+
+Definition KEEP : str := lit "-1".
+Definition pick (new old : str) : str := if str_eqb new KEEP then old else new.
+(* the effect of one call on the credentials (Linux semantics for a process that
+   is allowed to make the change; a refused call is a failure, i.e. an Abort) *)
+Definition cred_step (c : cred) (e : effect) : cred :=
+  let n := ename e in
+  match eargs e with
+  | [a] =>
+      if str_eqb n (lit "os.setgroups") then Cred (c_ruid c) (c_euid c) (c_suid c) (c_rgid c) (c_egid c) (c_sgid c) a
+      else if str_eqb n (lit "os.setuid") then
+        (if str_eqb (c_euid c) ZERO then Cred a a a (c_rgid c) (c_egid c) (c_sgid c) (c_groups c)
+         else Cred (c_ruid c) a (c_suid c) (c_rgid c) (c_egid c) (c_sgid c) (c_groups c))
+      else if str_eqb n (lit "os.setgid") then
+        (if str_eqb (c_euid c) ZERO then Cred (c_ruid c) (c_euid c) (c_suid c) a a a (c_groups c)
+         else Cred (c_ruid c) (c_euid c) (c_suid c) (c_rgid c) a (c_sgid c) (c_groups c))
+      else if str_eqb n (lit "os.seteuid") then Cred (c_ruid c) a (c_suid c) (c_rgid c) (c_egid c) (c_sgid c) (c_groups c)
+      else if str_eqb n (lit "os.setegid") then Cred (c_ruid c) (c_euid c) (c_suid c) (c_rgid c) a (c_sgid c) (c_groups c)
+      else c
+  | [r; x] =>
+      if str_eqb n (lit "os.setreuid") then
+        Cred (pick r (c_ruid c)) (pick x (c_euid c))
+             (if str_eqb r KEEP && (str_eqb x KEEP || str_eqb x (c_ruid c)) then c_suid c else pick x (c_euid c))
+             (c_rgid c) (c_egid c) (c_sgid c) (c_groups c)
+      else if str_eqb n (lit "os.setregid") then
+        Cred (c_ruid c) (c_euid c) (c_suid c) (pick r (c_rgid c)) (pick x (c_egid c))
+             (if str_eqb r KEEP && (str_eqb x KEEP || str_eqb x (c_rgid c)) then c_sgid c else pick x (c_egid c))
+             (c_groups c)
+      else if str_eqb n (lit "os.initgroups") then
+        Cred (c_ruid c) (c_euid c) (c_suid c) (c_rgid c) (c_egid c) (c_sgid c)
+             (lit "initgroups(" ++ r ++ lit "," ++ x ++ lit ")")
+      else c
+  | [r; x; sv] =>
+      if str_eqb n (lit "os.setresuid") then
+        Cred (pick r (c_ruid c)) (pick x (c_euid c)) (pick sv (c_suid c)) (c_rgid c) (c_egid c) (c_sgid c) (c_groups c)
+      else if str_eqb n (lit "os.setresgid") then
+        Cred (c_ruid c) (c_euid c) (c_suid c) (pick r (c_rgid c)) (pick x (c_egid c)) (pick sv (c_sgid c)) (c_groups c)
+      else c
+  | _ => c
+  end.
+Definition final_cred (c : cred) (tr : list effect) : cred := fold_left cred_step tr c.
+Definition cred_list (c : cred) : list str :=
+  [c_ruid c; c_euid c; c_suid c; c_rgid c; c_egid c; c_sgid c; c_groups c].
+
+(* what the configuration asks for *)
+Definition wanted_cred (o : opts) (c : cred) : cred :=
+  Cred (if o_uid o then UIDV else c_ruid c) (if o_uid o then UIDV else c_euid c) (if o_uid o then UIDV else c_suid c)
+       (if o_gid o then GIDV else c_rgid c) (if o_gid o then GIDV else c_egid c) (if o_gid o then GIDV else c_sgid c)
+       (if o_uid o || o_gid o then NOGROUPS else c_groups c).
+
+Definition run_initialize_from (P : program) (st : start) (o : opts) (fail : option (nat * xcls)) : outcome :=
+  run P (World fail ((lit "os.fork", VInt 0) :: start_results st)) (mkcfg o) (lit "initialize") [VStr (lit "pygopherd.conf")].
+Definition run_security_from (P : program) (st : start) (o : opts) (fail : option (nat * xcls)) : outcome :=
+  run P (World fail (start_results st)) (mkcfg o) (lit "init_security") [VSym (lit "config")].
